@@ -101,6 +101,11 @@ def _arith_tabulate(ctx) -> None:
     O = [1, -1, 2, 3, 10**6, 7 * 10**6 + 1, -(D + 5), 3 * D, 250_000, 1_000_000 * D + 3]
     INTS = [1, -1, 2, 3, -7, 10, 10**6]
     FLOATS = [0.5, -0.5, 1.5, 2.25, 0.1, -3.7, 1e-3, 3.0]
+    if ctx.tier == "thorough":
+        S = S + [t + k for t in (D, 7 * D, 366 * D, 10**5 * D) for k in (-1, 0, 1, 499_999, 500_000, 500_001)] + [-(3 * D + 500_000), 59_999_999, -59_999_999, 3_600_000_001]
+        O = O + [3, 6, 7, 500_000, 1_500_000, D + 1, -(2 * D), 60 * 10**6, 3600 * 10**6 - 1]
+        INTS = INTS + [4, 6, -2, 7, 86400, -10**6, 1000003]
+        FLOATS = FLOATS + [0.25, 0.3, -1.75, 7.0, 1e6, 1 / 3, 2 / 3, -0.001, 123456.789]
 
     def us(td: _dt.timedelta) -> int:
         return (td.days * 86400 + td.seconds) * 10**6 + td.microseconds
@@ -141,7 +146,11 @@ def _arith_tabulate(ctx) -> None:
                         yield f"(years={y}, months={mo}, {s_}us) * {k}", [w.normalised(y, mo, s_), k], ("ymr", (y * k, mo * k, s_ * k))
             for s_ in S:
                 for f in FLOATS:
-                    yield f"{s_}us * {f}", [w.normalised(0, 0, s_), f], ("len", us(td(s_) * f))
+                    try:
+                        want_us = us(td(s_) * f)
+                    except OverflowError:
+                        continue            # outside the range of the native class: no reference value
+                    yield f"{s_}us * {f}", [w.normalised(0, 0, s_), f], ("len", want_us)
         elif op == "__floordiv__":
             for s_ in S:
                 for k in INTS:
